@@ -45,11 +45,11 @@ CHECKS = {
     "C12": ("exploration", "runtime monitoring: poison-set monitor over load_contacts(), hook registry dump and search streams",
         "Held = no unsolicited sender, no name from an impossible response, no router address and not the own id ever appeared among contacts/table, nothing good without having been heard from, in all explored runs.",
         "Live-prefix forgeries are out of this property's wording.", "DESIGN.md §6 C12"),
-    "C13": ("exploration", "runtime monitoring: differential oracle against an independent codec + metamorphic transforms",
+    "C13": ("exploration", "runtime monitoring: differential oracle against an independent codec + metamorphic transforms, also after the codec was made to refuse something; thorough adds Miri and a coverage-guided libFuzzer + AddressSanitizer differential target",
         "Held = encode/decode agreed with the reference codec on every generated message, permutation, unknown-key variant and malformed variant.",
         "Reference codec written from BEP3/5/32, self-tested on BEP5's examples.", "DESIGN.md §6 C13"),
-    "C14": ("exploration", "runtime monitoring + sanitizers: supervised worker processes with counting allocator, panic hook, 2 MiB stack",
-        "Held = no explored input (structure-aware hostile generator + systematic sweeps) aborted, panicked, overflowed the stack or requested memory out of proportion.",
+    "C14": ("exploration", "runtime monitoring + sanitizers: supervised worker processes with counting allocator, panic hook, 2 MiB stack; real nodes under hostile datagrams, duplicating network, adversarial contacts and API callers with liveness probes; thorough adds libFuzzer + AddressSanitizer, Miri and a debug-profile pass",
+        "Held = no explored input (structure-aware hostile generator + systematic sweeps) aborted, panicked, overflowed the stack or requested memory out of proportion, and every explored node kept answering pings and API calls after every batch of hostile traffic.",
         "Thresholds: single request > 64 KiB or total > 64 x input + 64 KiB; release profile decides.", "DESIGN.md §6 C14"),
     "C15": ("exploration", "runtime monitoring: API liveness probes, waiter timestamps and wire log over generated configurations and outage patterns",
         "Held = in every explored configuration the node stayed alive, did not resolve before the first reply, and resolved every waiter within the derived bound.",
@@ -59,13 +59,13 @@ CHECKS = {
         "Stable scripted world; reference must reproduce.", "DESIGN.md §6 C16"),
     "C17": ("exploration", "runtime monitoring: datagram-size monitor at the socket (always on) + dedicated store workload; known finding handled",
         "Held = no explored datagram exceeded 1500 bytes other than the known finding C17-values-uncapped, which is reported as KNOWN-FINDING.",
-        "Known finding keyed on the exact signature; any other oversize datagram is a violation.", "DESIGN.md §6 C17"),
+        "Known finding keyed on the exact signature (an oversize answer to a get_peers query that would fit without its values but not with every distinct value listed once); any other oversize datagram is a violation.", "DESIGN.md §6 C17"),
     "C18": ("exploration", "runtime monitoring: sliding-window counter over the guarded hook event log during multi-hour virtual runs",
         "Held = refresh rounds never exceeded window/6 s + 1 + completions in any window and pending timers stayed <= 1 in all explored runs (thousands of re-bootstrap cycles).",
         "Rounds observed through a guarded hook.", "DESIGN.md §6 C18"),
     "C19": ("exploration", "runtime monitoring: full-cycle generator driver with bitmap + wire/hook monitor over mixed scenarios",
-        "Held = a full 2^24 cycle and both wraps were repeat-free; every emitted query had an 8-byte id attributable to exactly one live activity.",
-        "2^40 period covered at both ends only.", "DESIGN.md §6 C19"),
+        "Held = a full 2^24 cycle, both wraps and ~50 generator positions across the 40-bit range were repeat-free; every emitted query had an 8-byte id attributable to exactly one live activity, also on nodes taken past an action-id block boundary (> 2048 searches).",
+        "2^40 period sampled (both ends, powers of two, random block positions), not enumerated.", "DESIGN.md §6 C19"),
     "C20": (
         "exploration",
         "runtime oracle: independent BEP42 validator (own CRC32-C) over generated addresses",
